@@ -363,3 +363,189 @@ def system_events(sysd):
         ev.append({"ev": "Feed", "F": sysd["feed"]["F"],
                    "cf": {s: sysd["feed"]["cf"].get(s, [1, 1]) for s in TRACE_SPECIES}})
     return ev
+
+
+# ----------------------------------------------------------------------------- C04: building ODE systems
+_LIN = []
+
+
+def lin_class():
+    """The substituted expression  k := a * T  ("expr"/"expruk" substitutions of OdeBuild.tla):
+    a chempy Expr with one argument a and one parameter key T."""
+    if not _LIN:
+        from chempy.util._expr import Expr
+
+        class Lin(Expr):
+            argument_names = ("a",)
+            parameter_keys = ("T",)
+
+            def __call__(self, variables, backend=None, **kw):
+                (a,) = self.all_args(variables, backend=backend)
+                (T,) = self.all_params(variables, backend=backend)
+                return a * T
+
+        _LIN.append(Lin)
+    return _LIN[0]
+
+
+def kname(i):
+    return "k%d" % i
+
+
+def param_obj(kind, i, kv):
+    from chempy.kinetics.rates import MassAction
+    v = conv(kv, "int") if kv[1] == 1 else conv(kv, "frac")
+    if kind == "num":
+        return v
+    if kind == "ma_num":
+        return MassAction([v])
+    if kind == "str":
+        return kname(i)
+    if kind == "ma_fk":
+        return MassAction.fk(kname(i))
+    if kind == "ma_uk":
+        return MassAction([v], unique_keys=(kname(i),))
+    raise ValueError(kind)
+
+
+def build_odesys(cin):
+    """(odesys, extra) for the configuration of the case, through the real builders."""
+    from collections import OrderedDict
+    from chempy import Substance
+    from chempy.kinetics.ode import get_odesys, _create_odesys
+    from chempy.util._expr import Constant
+    cfg = cin["cfg"]
+    params = [param_obj(kd, rx["k"], rx["kv"]) for kd, rx in zip(cfg["kinds"], cin["rxns"])]
+    if cfg["comp"]:
+        substances = OrderedDict(
+            (s, Substance(s, composition=dict((int(k), int(v)) for k, v in comp)))
+            for s, comp in zip(cin["subst"], cin["comp"]))
+        from chempy import ReactionSystem
+        rxns = [mk_reaction(rx, p) for rx, p in zip(cin["rxns"], params)]
+        rsys = ReactionSystem(rxns, substances, dont_check={"balance"})
+    else:
+        rsys = mk_system(cin, params)
+    Lin = lin_class()
+    a = conv(cfg["aval"], "int")
+    if cfg["builder"] == "get_odesys":
+        subs = OrderedDict()
+        for i, (sk, rx) in enumerate(zip(cfg["subs"], cin["rxns"])):
+            if sk == "num":
+                subs[kname(rx["k"])] = conv(cfg["subvals"][i], "int")
+            elif sk == "expr":
+                subs[kname(rx["k"])] = Lin([a])
+            elif sk == "expruk":
+                subs[kname(rx["k"])] = Lin([a], unique_keys=("a1",))
+        return get_odesys(rsys, include_params=cfg["incl"], substitutions=subs or None, cstr=bool(cfg["cstr"]))
+    pe = {}
+    for i, (sk, rx) in enumerate(zip(cfg["subs"], cin["rxns"])):
+        if sk == "num":
+            pe[kname(rx["k"])] = Constant([conv(cfg["subvals"][i], "int")])
+        elif sk in ("expr", "expruk"):
+            pe[kname(rx["k"])] = Lin([a])
+    kw = {}
+    if pe:
+        kw["parameter_expressions"] = pe
+    if cfg["cstr"]:
+        kw["rates_kw"] = dict(cstr_fr_fc=(FEEDVAR, OrderedDict((s, fcvar(s)) for s in cin["subst"])))
+    return _create_odesys(rsys, **kw)
+
+
+def observe_odesys(cin):
+    """Project everything C04 names: names, param_names, exprs (monomial tables with symbols
+    mapped BY NAME), f_cb and rate_exprs_cb at the state with parameters bound BY NAME,
+    linear_invariants."""
+    import sympy
+    built = guarded(build_odesys, cin)
+    if is_raise(built):
+        return {"build": built}
+    odesys, extra = built
+    names = list(odesys.names)
+    pnames = list(odesys.param_names)
+    obs = {"build": "ok", "names": names, "params": sorted(pnames),
+           "params_unique": len(set(pnames)) == len(pnames)}
+
+    def tables():
+        rep = {}
+        for sym, n in zip(odesys.dep, names):
+            rep[sym] = sympy.Symbol(n)
+        for sym, n in zip(odesys.params, pnames):
+            rep[sym] = sympy.Symbol(n)
+        return proj_polys([sympy.sympify(e).xreplace(rep) for e in odesys.exprs], names + pnames)
+    obs["poly"] = guarded(tables)
+    cmap = dict(zip(cin["subst"], cin["c"]))
+    bind = dict((k, v) for k, v in cin["bind"])
+
+    def yp():
+        y = [float(conv(cmap[n], "frac")) for n in names]
+        p = [float(conv(bind[n], "frac")) for n in pnames]
+        return y, p
+    obs["f"] = guarded(lambda: proj_seq(list(odesys.f_cb(0.0, *yp()))))
+    if "rate_exprs_cb" in extra:
+        obs["rvals"] = guarded(lambda: proj_seq(list(extra["rate_exprs_cb"](0.0, *yp()))))
+    li = odesys.linear_invariants
+
+    def bmat():
+        if li is None:
+            return []
+        return [[int(x) for x in row] for row in sympy.Matrix(li).tolist()]
+    obs["B"] = guarded(bmat)
+    return obs
+
+
+def gen_build_config(rng, n):
+    """A random configuration from the families of OdeBuild_MC (not filtered: TLC's Accepted
+    decides whether a configuration is inside the model)."""
+    kinds_all = ["num", "ma_num", "str", "ma_fk", "ma_uk"]
+    builder = rng.choice(["get_odesys", "get_odesys", "create_odesys"])
+    if builder == "create_odesys":
+        kinds = [rng.choice(["ma_num", "str", "ma_fk", "ma_uk"]) for _ in range(n)]
+        if rng.random() < 0.4:
+            kinds = ["str"] * n
+    else:
+        kinds = [rng.choice(kinds_all) for _ in range(n)]
+    incl = builder == "get_odesys" and rng.random() < 0.4
+    subs = ["none"] * n
+    mode = rng.random()
+    named = [i for i, k in enumerate(kinds) if k in ("str", "ma_fk", "ma_uk")]
+    if builder == "create_odesys":
+        named = [i for i, k in enumerate(kinds) if k == "str"]
+    if named and mode < 0.5:
+        for i in named:
+            if rng.random() < 0.5 or (incl and kinds[i] in ("str", "ma_fk")):
+                subs[i] = "num"
+        if rng.random() < 0.4:
+            subs[rng.choice(named)] = rng.choice(["expr", "expruk"]) if builder == "get_odesys" else "expr"
+    elif incl:
+        for i in named:
+            if kinds[i] in ("str", "ma_fk"):
+                subs[i] = "num"
+    return {"builder": builder, "incl": incl, "kinds": kinds, "subs": subs, "comp": False,
+            "subvals": [[rng.choice([2, 3, 5, 7]), 1] for _ in range(n)],
+            "aval": [rng.choice([2, 3, 5]), 1], "tval": [rng.choice([2, 3, 7]), 1]}
+
+
+# ----------------------------------------------------------------------------- repository suite (code -> spec)
+SUITE_FILES = ["chempy/tests/test_reactionsystem.py", "chempy/kinetics/tests/test_ode.py",
+               "chempy/kinetics/tests/test_rates.py", "chempy/kinetics/tests/test__rates.py"]
+
+
+def record_suite(tmpdir, repo):
+    """Run the repository's own kinetics tests under the external recorder plugin
+    (harness/kinetics_recorder.py) and return the recorded calls (one dict per call)."""
+    import json
+    import os
+    import subprocess
+    import sys
+    out = os.path.join(tmpdir, "suite-calls.jsonl")
+    if os.path.exists(out):
+        os.unlink(out)
+    here = os.path.dirname(os.path.abspath(__file__))
+    env = dict(os.environ, CHEMPY_VERIF_TRACE=out, PYTHONPATH=repo + ":" + here, PYTHONDONTWRITEBYTECODE="1")
+    files = [f for f in SUITE_FILES if os.path.exists(os.path.join(repo, f))]
+    subprocess.run(["timeout", "600", sys.executable, "-m", "pytest", "-q", "-p", "no:cacheprovider",
+                    "-p", "kinetics_recorder"] + files, cwd=repo, env=env,
+                   stdout=subprocess.DEVNULL, stderr=subprocess.DEVNULL)
+    if not os.path.exists(out):
+        return []
+    return [json.loads(line) for line in open(out) if line.strip()]
